@@ -359,6 +359,14 @@ pub fn run(args: &[String]) -> String {
                                 let b = (w >> k) & 1 != 0;
                                 let got = d.add_bit(b);
                                 let (st2, e) = x_ps2_step(st.0, st.1, b);
+                                let e = if crate::relational() && st.0 == 10 {
+                                    match Ps2Decoder::new().add_word(st.1 | ((b as u16) << 10)) {
+                                        Ok(x) => Ok(Some(x)),
+                                        Err(x) => Err(x),
+                                    }
+                                } else {
+                                    e
+                                };
                                 if got != e {
                                     if !crate::panic_only() { return Some(i); }
                                 }
